@@ -808,14 +808,15 @@ def agg_exit(result, any_int_g, partition_index=None, over_data=None, sum_over=N
         return True
     d = partition_index
     g = any_int_g
-    if not (len(result._underlying) == 2 and len(result._underlying[0]._underlying) == dcount(d)
-            and len(result._underlying[1]._underlying) == dcount(d)):
+    nk = len(over_data)
+    if not (len(result._underlying) == nk + 1
+            and all(len(result._underlying[c]._underlying) == dcount(d) for c in range(nk + 1))):
         return False
     if not (0 <= g < dcount(d)):
         return True
     group_vals = [S.at(col._underlying, bat(d, dord(d, g), p)) for p in range(blen(d, dord(d, g)))]
-    return (S.same(S.at(result._underlying[0]._underlying, g), S.key_part(dord(d, g), 0))
-            and S.same(S.at(result._underlying[1]._underlying, g),
+    return (all(S.same(S.at(result._underlying[c]._underlying, g), S.key_part(dord(d, g), c)) for c in range(nk))
+            and S.same(S.at(result._underlying[nk]._underlying, g),
                        _agg_expected(group_vals, sum_over, mean_over, min_over, max_over, count_over, stdev_over)))
 
 
@@ -954,17 +955,18 @@ def win_exit(result, any_int_R, any_int_G=None, partition_index=None, gidx=None,
         return True
     d = partition_index
     R = any_int_R
-    if not (len(result._underlying) == 2 and len(result._underlying[0]._underlying) == nrows
-            and len(result._underlying[1]._underlying) == nrows):
+    nk = len(over_data)
+    if not (len(result._underlying) == nk + 1
+            and all(len(result._underlying[c]._underlying) == nrows for c in range(nk + 1))):
         return False
     if not (0 <= R < nrows):
         return True
-    if not S.same(S.at(result._underlying[0]._underlying, R), S.at(over_data[0], R)):
+    if not all(S.same(S.at(result._underlying[c]._underlying, R), S.at(over_data[c], R)) for c in range(nk)):
         return False
     kR = _agg_key(over_data, R)
     if not (any_int_G == sel(gidx, kR)):
         return True
-    return S.same(S.at(result._underlying[1]._underlying, R),
+    return S.same(S.at(result._underlying[nk]._underlying, R),
                   _agg_expected(_bucket_vals(col._underlying, d, kR), sum_over, mean_over, min_over, max_over, count_over, stdev_over))
 
 
@@ -1142,3 +1144,39 @@ class vector_sort_by:
 
     def requires(self):
         return (self._dtype is None or S.valid_dtype(self._dtype)) and S.truthful(self)
+
+
+# =================================================================== two partition key columns (thorough tier)
+def _agg_params2(which):
+    p = _agg_params(which)
+    p['over'] = 'listof:2:dvector'
+    return p
+
+
+@contract(AGG, props=['C12'], variant='partition-2keys-sum')
+class aggregate_partition_2(aggregate_partition):
+    """C12 (partition loop, TWO key vectors)."""
+    params = _agg_params2('sum')
+    tier = 'thorough'
+
+
+@contract(AGG, props=['C12'], variant='assemble-2keys-sum')
+class aggregate_assemble_2(aggregate_assemble):
+    """C12 (result assembly, TWO key vectors, SUM): one row per distinct key pair in first-appearance
+    order, both key columns, the sum spec of the bucket."""
+    params = _agg_params2('sum')
+    tier = 'thorough'
+
+
+@contract(WIN, props=['C13'], variant='partition-2keys-sum')
+class window_partition_2(window_partition):
+    """C13 (partition loop, TWO key vectors)."""
+    params = _agg_params2('sum')
+    tier = 'thorough'
+
+
+@contract(WIN, props=['C13'], variant='assemble-2keys-sum')
+class window_assemble_2(window_assemble):
+    """C13 (group values and expansion, TWO key vectors, SUM)."""
+    params = _agg_params2('sum')
+    tier = 'thorough'
